@@ -4,15 +4,6 @@
 
 package dag
 
-// EvalConditions evaluates step / DAG preconditions: it may spawn processes (command substitution) but does
-// not touch the scheduler's state.  The ghost counter eff.condfail records a failed evaluation.
-//@ fn EvalConditions(cond) (err)
-//@   props C02 C04
-//@   trusted
-//@   modifies ghost eff.exec, ghost eff.condfail
-//@   ensures err != nil ==> eff.condfail == old(eff.condfail) + 1
-//@   ensures err == nil ==> eff.condfail == old(eff.condfail)
-
 // Output variables of a run live in a sync.Map shared by all steps; the ghost triple records the last Store.
 //@ ghost outvar.stores int
 //@ ghost outvar.key any
@@ -39,14 +30,411 @@ package dag
 //@ ghost obs.meta_calls int
 //@ ghost obs.meta_err error
 //@ ghost obs.meta_dag *DAG
-//@ fn LoadMetadata(dag) (d, err)
-//@   props C09 C19
-//@   trusted
-//@   modifies heap(alloc), ghost obs.meta_calls, ghost obs.meta_err, ghost obs.meta_dag
-//@   ensures obs.meta_calls == old(obs.meta_calls) + 1 && obs.meta_err == err && obs.meta_dag == d
-//@   ensures err == nil ==> d != nil
 
 //@ fn (*DAG).SockAddr(d) (r)
 //@   props C16
 //@   trusted
 //@   pure
+
+// =============================================================================================
+// The loader (C13, C19).  Every function between the entry points and the built DAG is verified for memory
+// safety (nil dereference, nil-map write, index/slice bounds, unchecked type assertion) on arbitrary decoded
+// definitions, and carries the effect contract: with noEval no process is spawned (eff.exec) and the
+// environment of the loading process is not touched (eff.env).
+
+// --- decoding: YAML / mapstructure / mergo internals are assumed total; they return any value of the static type,
+// with pointer elements possibly nil and `any` fields holding arbitrary YAML values.
+//@ fn unmarshalData(data) (cm, err)
+//@   props C13 C19
+//@   trusted
+//@   modifies heap(alloc)
+//@ fn readFile(file) (cfg, err)
+//@   props C13 C19
+//@   trusted
+//@   modifies heap(alloc)
+//@ fn decode(cm) (c, err)
+//@   props C13 C19
+//@   trusted
+//@   modifies heap(alloc)
+//@   ensures c != nil && !wasAllocated(c)
+//@   ensures (c.HandlerOn.Exit == nil || !wasAllocated(c.HandlerOn.Exit)) && (c.HandlerOn.Success == nil || !wasAllocated(c.HandlerOn.Success)) &&
+//@        (c.HandlerOn.Failure == nil || !wasAllocated(c.HandlerOn.Failure)) && (c.HandlerOn.Cancel == nil || !wasAllocated(c.HandlerOn.Cancel))
+//@ fn merge(dst, src) (err)
+//@   props C13 C19
+//@   trusted
+//@   modifies dst, heap(alloc)
+//@   ensures dst.Steps == old(dst.Steps) || dst.Steps == old(src.Steps) || dst.Steps == nil || !wasAllocated(dst.Steps)
+//@   ensures dst.HandlerOn.Exit == old(dst.HandlerOn.Exit) || dst.HandlerOn.Exit == old(src.HandlerOn.Exit) || !wasAllocated(dst.HandlerOn.Exit)
+//@   ensures dst.HandlerOn.Success == old(dst.HandlerOn.Success) || dst.HandlerOn.Success == old(src.HandlerOn.Success) || !wasAllocated(dst.HandlerOn.Success)
+//@   ensures dst.HandlerOn.Failure == old(dst.HandlerOn.Failure) || dst.HandlerOn.Failure == old(src.HandlerOn.Failure) || !wasAllocated(dst.HandlerOn.Failure)
+//@   ensures dst.HandlerOn.Cancel == old(dst.HandlerOn.Cancel) || dst.HandlerOn.Cancel == old(src.HandlerOn.Cancel) || !wasAllocated(dst.HandlerOn.Cancel)
+//@ fn craftFilePath(file) (r, err)
+//@   props C13 C19
+//@   safety
+//@   modifies heap(alloc)
+//@ fn defaultName(file) (r)
+//@   props C13
+//@   safety
+
+// --- leaves that may have effects
+//@ fn substituteCommands(input) (r, err)
+//@   props C13 C19
+//@   safety
+//@   modifies heap(alloc), ghost eff.exec
+//@   ensures [C19 substitution_only_spawns] eff.exec >= old(eff.exec)
+//@   loop 0 invariant 0 <= i && eff.exec >= old(eff.exec)
+
+//@ fn parseParamValue(input, executeCommandSubstitution) (params, err)
+//@   props C13 C19 C11
+//@   safety
+//@   modifies heap(alloc), ghost eff.exec
+//@   ensures [C19 params_run_commands_only_when_asked] !executeCommandSubstitution ==> eff.exec == old(eff.exec)
+//@   loop 0 invariant !executeCommandSubstitution ==> eff.exec == old(eff.exec)
+
+//@ fn stringifyParam(param) (r)
+//@   props C11 C13
+//@   ensures [C11 named_param_is_name_equals_value] r == ite(param.name != "", param.name + "=" + param.value, param.value)
+
+//@ fn parseParams(value, eval, options) (params, envs, err)
+//@   props C13 C19 C11
+//@   safety
+//@   modifies heap(alloc), ghost eff.exec, ghost eff.env, ghost env.key, ghost env.val
+//@   ensures [C19 no_eval_no_effect] !eval && options.noEval ==> (eff.exec == old(eff.exec) && eff.env == old(eff.env))
+//@   loop 0 invariant !eval && options.noEval ==> (eff.exec == old(eff.exec) && eff.env == old(eff.env))
+
+//@ fn parseKeyValue(m, pairs) (err)
+//@   props C13 C19
+//@   safety
+//@   modifies pairs, heap(alloc)
+
+//@ fn loadVariables(strVariables, opts) (vars, err)
+//@   props C13 C19
+//@   safety
+//@   modifies heap(alloc), ghost eff.exec, ghost eff.env, ghost env.key, ghost env.val
+//@   ensures [C19 no_eval_no_effect] opts.noEval ==> (eff.exec == old(eff.exec) && eff.env == old(eff.env))
+//@   ensures err == nil ==> vars != nil
+//@   loop 0 invariant opts.noEval ==> (eff.exec == old(eff.exec) && eff.env == old(eff.env))
+//@   loop 1 invariant opts.noEval ==> (eff.exec == old(eff.exec) && eff.env == old(eff.env))
+
+//@ fn buildConfigEnv(vars) (ret)
+//@   props C13
+//@   safety
+//@   modifies heap(alloc)
+//@ fn buildConditions(cond) (ret)
+//@   props C13
+//@   safety
+//@   requires forall i int :: 0 <= i && i < len(cond) ==> cond[i] != nil
+//@   modifies heap(alloc)
+//@ fn parseTags(value) (ret)
+//@   props C13
+//@   safety
+//@   modifies heap(alloc)
+//@ fn parseKey(value) (r, err)
+//@   props C13
+//@   safety
+//@ fn extractParamNames(command) (r)
+//@   props C13
+//@   safety
+//@   modifies heap(alloc)
+//@ fn assignValues(command, params) (r)
+//@   props C13
+//@   safety
+//@   modifies heap(alloc)
+
+// --- schedules
+//@ fn parseSchedules(values) (ret, err)
+//@   props C13 C09
+//@   safety
+//@   modifies heap(alloc)
+//@   ensures [C13 stored_schedules_are_parseable] err == nil ==> (len(ret) == len(values) &&
+//@        (forall i int :: 0 <= i && i < len(ret) ==> (cron_valid(ret[i].Expression) && ret[i].Expression == values[i] && ret[i].Parsed != nil)))
+//@   ensures [C13 unparseable_schedule_is_rejected] (exists i int :: 0 <= i && i < len(values) && !cron_valid(values[i])) ==> err != nil
+//@   loop 0 invariant len(ret) == idx + 1
+//@   loop 0 invariant forall i int :: 0 <= i && i <= idx ==> (cron_valid(ret[i].Expression) && ret[i].Expression == values[i] && ret[i].Parsed != nil && cron_valid(values[i]))
+
+//@ fn parseScheduleMap(scheduleMap, starts, stops, restarts) (err)
+//@   props C13
+//@   safety
+//@   modifies starts, stops, restarts, heap(alloc)
+
+//@ fn (*builder).buildSchedule(b) (err)
+//@   props C13 C19
+//@   safety
+//@   requires b.def != nil && b.dag != nil
+//@   modifies b.dag.Schedule, b.dag.StopSchedule, b.dag.RestartSchedule, heap(alloc)
+//@   ensures [C13 accepted_schedules_parse] err == nil ==>
+//@        ((forall i int :: 0 <= i && i < len(b.dag.Schedule) ==> cron_valid(b.dag.Schedule[i].Expression)) &&
+//@         (forall i int :: 0 <= i && i < len(b.dag.StopSchedule) ==> cron_valid(b.dag.StopSchedule[i].Expression)) &&
+//@         (forall i int :: 0 <= i && i < len(b.dag.RestartSchedule) ==> cron_valid(b.dag.RestartSchedule[i].Expression)))
+
+// --- the builder: each method builds one part of the DAG
+//@ pred def_wf(def *definition) =
+//@      (forall i int :: 0 <= i && i < len(def.Preconditions) ==> def.Preconditions[i] != nil) &&
+//@      (forall i int :: 0 <= i && i < len(def.Functions) ==> def.Functions[i] != nil) &&
+//@      (forall i int :: 0 <= i && i < len(def.Steps) ==> (def.Steps[i] != nil && step_def_wf(def.Steps[i]))) &&
+//@      (def.HandlerOn.Exit != nil ==> step_def_wf(def.HandlerOn.Exit)) && (def.HandlerOn.Success != nil ==> step_def_wf(def.HandlerOn.Success)) &&
+//@      (def.HandlerOn.Failure != nil ==> step_def_wf(def.HandlerOn.Failure)) && (def.HandlerOn.Cancel != nil ==> step_def_wf(def.HandlerOn.Cancel))
+//@ pred step_def_wf(sd *stepDef) = forall i int :: 0 <= i && i < len(sd.Preconditions) ==> sd.Preconditions[i] != nil
+
+//@ fn hasNullCondition(conds) (r)
+//@   props C13
+//@   safety
+//@   ensures [C13 null_condition_is_detected] !r <==> (forall i int :: 0 <= i && i < len(conds) ==> conds[i] != nil)
+//@   loop 0 invariant forall i int :: 0 <= i && i <= idx ==> conds[i] != nil
+
+//@ fn assertNoNullEntries(def) (err)
+//@   props C13
+//@   safety
+//@   ensures [C13 null_entries_are_rejected] err == nil ==> def_wf(def)
+//@   loop 0 invariant forall i int :: 0 <= i && i <= idx ==> def.Functions[i] != nil
+//@   loop 1 invariant forall i int :: 0 <= i && i < len(def.Functions) ==> def.Functions[i] != nil
+//@   loop 1 invariant forall i int :: 0 <= i && i <= idx ==> (def.Steps[i] != nil && step_def_wf(def.Steps[i]))
+//@   loop 1 invariant forall i int :: 0 <= i && i < len(def.Preconditions) ==> def.Preconditions[i] != nil
+
+//@ fn assertFunctions(fns) (err)
+//@   props C13
+//@   safety
+//@   requires forall i int :: 0 <= i && i < len(fns) ==> fns[i] != nil
+//@   modifies heap(alloc)
+//@   loop 1 invariant 0 <= i
+
+//@ fn assertStepDef(def, funcs) (err)
+//@   props C13
+//@   safety
+//@   requires forall i int :: 0 <= i && i < len(funcs) ==> funcs[i] != nil
+//@   modifies heap(alloc)
+//@   ensures [C13 accepted_step_has_a_name] err == nil ==> def.Name != ""
+
+//@ fn parseFuncCall(step, call, funcs) (err)
+//@   props C13
+//@   safety
+//@   nullable call
+//@   requires forall i int :: 0 <= i && i < len(funcs) ==> funcs[i] != nil
+//@   modifies step.Args, step.Command, step.CmdWithArgs, heap(alloc)
+//@ fn parseCommand(def, step) (err)
+//@   props C13
+//@   safety
+//@   modifies step.Args, step.Command, step.CmdWithArgs, heap(alloc)
+//@ fn convertMap(m) (err)
+//@   props C13
+//@   safety
+//@   modifies heap(alloc), heap(map(string, any))
+//@   loop 1 invariant len(queue) >= 1
+//@ fn parseExecutor(def, step) (err)
+//@   props C13
+//@   safety
+//@   requires step.ExecutorConfig.Config != nil
+//@   modifies step.ExecutorConfig.Type, heap(alloc), heap(map(string, any))
+//@ fn parseSubWorkflow(def, step) (err)
+//@   props C13
+//@   safety
+//@   modifies step.SubWorkflow, step.ExecutorConfig.Type, step.Command, step.Args, step.CmdWithArgs, heap(alloc)
+//@ fn parseMiscs(def, step) (err)
+//@   props C13 C05
+//@   safety
+//@   modifies step.ContinueOn, step.RetryPolicy, step.RepeatPolicy, step.SignalOnStop, heap(alloc)
+//@   ensures [C13 accepted_stop_signal_is_a_signal_name] err == nil && def.SignalOnStop != nil ==> signal_num(step.SignalOnStop) != 0
+//@   ensures [C13 no_stop_signal_configured] def.SignalOnStop == nil ==> step.SignalOnStop == old(step.SignalOnStop)
+
+//@ fn (*stepBuilder).buildStep(b, variables, def, fns) (step, err)
+//@   props C13 C19
+//@   safety
+//@   funcset stepBuilderFuncs = parseCommand, parseExecutor, parseSubWorkflow, parseMiscs
+//@   requires step_def_wf(def) && (forall i int :: 0 <= i && i < len(fns) ==> fns[i] != nil)
+//@   modifies heap(alloc), heap(map(string, any))
+//@   loop 0 invariant step != nil && !wasAllocated(step) && step.Name == def.Name && step.ExecutorConfig.Config != nil && !wasAllocated(step.ExecutorConfig.Config)
+//@   loop 0 invariant step.SignalOnStop != "" ==> signal_num(step.SignalOnStop) != 0
+//@   ensures [C13 accepted_step_has_a_name_and_something_to_execute] err == nil ==>
+//@        (step != nil && step.Name != "" && step.Name == def.Name && (step.Command != "" || step.ExecutorConfig.Type != "" || step.SubWorkflow != nil))
+//@   ensures [C13 accepted_step_stop_signal_is_valid] err == nil && step.SignalOnStop != "" ==> signal_num(step.SignalOnStop) != 0
+//@   ensures err != nil ==> step == nil
+//@   ensures err == nil ==> !wasAllocated(step)
+
+//@ fn buildMailConfig(def) (r, err)
+//@   props C13
+//@   safety
+//@   modifies heap(alloc)
+//@   ensures err == nil && r != nil
+
+//@ fn (*builder).buildEnvs(b) (err)
+//@   props C13 C19
+//@   safety
+//@   requires b.def != nil && b.dag != nil
+//@   modifies b.dag.Env, heap(alloc), ghost eff.exec, ghost eff.env, ghost env.key, ghost env.val
+//@   ensures [C19 no_eval_no_effect] b.opts.noEval ==> (eff.exec == old(eff.exec) && eff.env == old(eff.env))
+//@ fn (*builder).buildMailOn(b) (err)
+//@   props C13 C19
+//@   safety
+//@   requires b.def != nil && b.dag != nil
+//@   modifies b.dag.MailOn, heap(alloc)
+//@ fn (*builder).buildParams(b) (err)
+//@   props C13 C19
+//@   safety
+//@   requires b.def != nil && b.dag != nil
+//@   modifies b.dag.DefaultParams, b.dag.Params, b.dag.Env, heap(alloc), ghost eff.exec, ghost eff.env, ghost env.key, ghost env.val
+//@   ensures [C19 no_eval_no_effect] b.opts.noEval ==> (eff.exec == old(eff.exec) && eff.env == old(eff.env))
+//@ fn (*builder).buildSteps(b) (err)
+//@   props C13 C19
+//@   safety
+//@   requires b.def != nil && b.dag != nil && def_wf(b.def)
+//@   modifies b.dag.Steps, heap(alloc), heap(map(string, any))
+//@   ensures err == nil ==> (b.dag.Steps == nil || !wasAllocated(b.dag.Steps))
+//@   ensures [C13 every_accepted_step_is_runnable] err == nil ==> (forall i int :: 0 <= i && i < len(b.dag.Steps) ==>
+//@        (b.dag.Steps[i].Name != "" && (b.dag.Steps[i].Command != "" || b.dag.Steps[i].ExecutorConfig.Type != "" || b.dag.Steps[i].SubWorkflow != nil) &&
+//@         (b.dag.Steps[i].SignalOnStop != "" ==> signal_num(b.dag.Steps[i].SignalOnStop) != 0)))
+//@   loop 0 invariant ret == nil || !wasAllocated(ret)
+//@   loop 0 invariant forall i int :: 0 <= i && i < len(ret) ==>
+//@        (ret[i].Name != "" && (ret[i].Command != "" || ret[i].ExecutorConfig.Type != "" || ret[i].SubWorkflow != nil) &&
+//@         (ret[i].SignalOnStop != "" ==> signal_num(ret[i].SignalOnStop) != 0))
+//@   loop 0 invariant b.def == old(b.def) && b.dag == old(b.dag) && b.def.Steps == old(b.def.Steps) && b.def.Functions == old(b.def.Functions) && def_wf(b.def)
+//@ fn (*builder).buildLogDir(b) (err)
+//@   props C13 C19
+//@   safety
+//@   requires b.def != nil && b.dag != nil
+//@   modifies b.dag.LogDir, heap(alloc), ghost eff.exec
+//@   ensures [C19 no_eval_no_effect] b.opts.noEval ==> eff.exec == old(eff.exec)
+//@ fn (*builder).buildHandlers(b) (err)
+//@   props C13 C19
+//@   safety
+//@   requires b.def != nil && b.dag != nil && def_wf(b.def)
+//@   modifies b.dag.HandlerOn, b.def.HandlerOn.Exit.Name, b.def.HandlerOn.Success.Name, b.def.HandlerOn.Failure.Name, b.def.HandlerOn.Cancel.Name, heap(alloc), heap(map(string, any))
+//@   ensures err == nil ==> handlers_kept_or_fresh(b.dag)
+//@ fn (*builder).buildSMTPConfig(b) (err)
+//@   props C13 C19
+//@   safety
+//@   requires b.def != nil && b.dag != nil
+//@   modifies b.dag.SMTP, heap(alloc)
+//@ fn (*builder).buildErrMailConfig(b) (err)
+//@   props C13 C19
+//@   safety
+//@   requires b.def != nil && b.dag != nil
+//@   modifies b.dag.ErrorMail, heap(alloc)
+//@ fn (*builder).buildInfoMailConfig(b) (err)
+//@   props C13 C19
+//@   safety
+//@   requires b.def != nil && b.dag != nil
+//@   modifies b.dag.InfoMail, heap(alloc)
+//@ fn (*builder).buildMiscs(b) (err)
+//@   props C13 C19
+//@   safety
+//@   requires b.def != nil && b.dag != nil && def_wf(b.def)
+//@   modifies b.dag.HistRetentionDays, b.dag.Preconditions, b.dag.MaxActiveRuns, b.dag.MaxCleanUpTime, heap(alloc)
+
+//@ fn (*errorList).Add(e, err)
+//@   props C13 C19
+//@   safety
+//@   modifies e, heap(alloc)
+//@   ensures [C13 every_reported_error_is_kept] len(deref(e)) == old(len(deref(e))) + ite(err != nil, 1, 0)
+//@ fn (*builder).callBuilderFunc(b, fn)
+//@   props C13 C19
+//@   inline
+
+//@ fn (HandlerType).String(h) (r)
+//@   props C13
+//@   trusted
+//@   pure
+
+// --- build: one definition -> one DAG
+//@ fn (*builder).build(b, def, envs) (d, err)
+//@   props C13 C19
+//@   safety
+//@   modifies b, def.HandlerOn.Exit.Name, def.HandlerOn.Success.Name, def.HandlerOn.Failure.Name, def.HandlerOn.Cancel.Name, heap(alloc), heap(map(string, any)), ghost eff.exec, ghost eff.env, ghost env.key, ghost env.val
+//@   ensures [C19 no_eval_no_effect] old(b.opts.noEval) ==> (eff.exec == old(eff.exec) && eff.env == old(eff.env))
+//@   ensures [C13 error_or_dag] (err == nil) <==> (d != nil)
+//@   ensures err == nil ==> (!wasAllocated(d) && (d.Steps == nil || !wasAllocated(d.Steps)) && handlers_fresh(d))
+//@   ensures [C13 accepted_definition_is_runnable] err == nil && !old(b.opts.metadataOnly) ==> dag_runnable(d)
+//@   ensures [C13 accepted_schedules_parse] err == nil ==> dag_schedules_valid(d)
+
+//@ pred handlers_fresh(d *DAG) = (d.HandlerOn.Exit == nil || !wasAllocated(d.HandlerOn.Exit)) && (d.HandlerOn.Success == nil || !wasAllocated(d.HandlerOn.Success)) &&
+//@      (d.HandlerOn.Failure == nil || !wasAllocated(d.HandlerOn.Failure)) && (d.HandlerOn.Cancel == nil || !wasAllocated(d.HandlerOn.Cancel))
+//@ pred handlers_kept_or_fresh(d *DAG) twostate = (d.HandlerOn.Exit == old(d.HandlerOn.Exit) || !wasAllocated(d.HandlerOn.Exit)) && (d.HandlerOn.Success == old(d.HandlerOn.Success) || !wasAllocated(d.HandlerOn.Success)) &&
+//@      (d.HandlerOn.Failure == old(d.HandlerOn.Failure) || !wasAllocated(d.HandlerOn.Failure)) && (d.HandlerOn.Cancel == old(d.HandlerOn.Cancel) || !wasAllocated(d.HandlerOn.Cancel))
+//@ pred step_runnable(s Step) = s.Name != "" && (s.Command != "" || s.ExecutorConfig.Type != "" || s.SubWorkflow != nil) &&
+//@      (s.SignalOnStop != "" ==> signal_num(s.SignalOnStop) != 0)
+//@ pred dag_runnable(d *DAG) = forall i int :: 0 <= i && i < len(d.Steps) ==>
+//@      (d.Steps[i].Name != "" && (d.Steps[i].Command != "" || d.Steps[i].ExecutorConfig.Type != "" || d.Steps[i].SubWorkflow != nil) &&
+//@       (d.Steps[i].SignalOnStop != "" ==> signal_num(d.Steps[i].SignalOnStop) != 0))
+//@ pred dag_schedules_valid(d *DAG) =
+//@      (forall i int :: 0 <= i && i < len(d.Schedule) ==> cron_valid(d.Schedule[i].Expression)) &&
+//@      (forall i int :: 0 <= i && i < len(d.StopSchedule) ==> cron_valid(d.StopSchedule[i].Expression)) &&
+//@      (forall i int :: 0 <= i && i < len(d.RestartSchedule) ==> cron_valid(d.RestartSchedule[i].Expression))
+
+// --- entry points
+//@ fn loadYAML(data, opts) (d, err)
+//@   props C13 C19
+//@   safety
+//@   modifies heap(alloc), heap(map(string, any)), ghost eff.exec, ghost eff.env, ghost env.key, ghost env.val, ghost obs.exists_calls, ghost obs.exists, ghost obs.exists_path, ghost obs.stat_err, ghost obs.stat_path
+//@   ensures [C19 no_eval_no_effect] opts.noEval ==> (eff.exec == old(eff.exec) && eff.env == old(eff.env))
+//@   ensures [C13 error_or_dag] err == nil ==> d != nil
+//@   ensures [C13 accepted_definition_is_runnable] err == nil && !opts.metadataOnly ==> dag_runnable(d)
+
+//@ fn LoadYAML(data) (d, err)
+//@   props C13 C19 C18
+//@   safety
+//@   modifies heap(alloc), heap(map(string, any)), ghost eff.exec, ghost eff.env, ghost env.key, ghost env.val, ghost obs.exists_calls, ghost obs.exists, ghost obs.exists_path, ghost obs.stat_err, ghost obs.stat_path
+//@   ensures [C19 validating_has_no_side_effects] eff.exec == old(eff.exec) && eff.env == old(eff.env)
+//@   ensures [C13 error_or_runnable_dag] err == nil ==> (d != nil && dag_runnable(d))
+
+//@ fn loadBaseConfig(file, opts) (d, err)
+//@   props C13 C19
+//@   safety
+//@   ensures err == nil && d != nil ==> (!wasAllocated(d) && (d.Steps == nil || !wasAllocated(d.Steps)) && handlers_fresh(d))
+//@   modifies heap(alloc), heap(map(string, any)), ghost eff.exec, ghost eff.env, ghost env.key, ghost env.val, ghost obs.exists_calls, ghost obs.exists, ghost obs.exists_path, ghost obs.stat_err, ghost obs.stat_path
+//@   ensures [C19 no_eval_no_effect] opts.noEval ==> (eff.exec == old(eff.exec) && eff.env == old(eff.env))
+//@ fn loadBaseConfigIfRequired(baseConfig, opts) (d, err)
+//@   props C13 C19
+//@   safety
+//@   modifies heap(alloc), heap(map(string, any)), ghost eff.exec, ghost eff.env, ghost env.key, ghost env.val, ghost obs.exists_calls, ghost obs.exists, ghost obs.exists_path, ghost obs.stat_err, ghost obs.stat_path
+//@   ensures [C19 no_eval_no_effect] opts.noEval ==> (eff.exec == old(eff.exec) && eff.env == old(eff.env))
+//@   ensures err == nil ==> (d != nil && !wasAllocated(d) && (d.Steps == nil || !wasAllocated(d.Steps)) && handlers_fresh(d))
+
+//@ fn (*Step).setup(s, workDir)
+//@   props C13
+//@   safety
+//@   modifies s.Dir
+//@ fn (*DAG).setup(d)
+//@   props C13
+//@   safety
+//@   modifies d.HistRetentionDays, d.MaxCleanUpTime, contents(d.Steps), d.HandlerOn.Exit.Dir, d.HandlerOn.Success.Dir, d.HandlerOn.Failure.Dir, d.HandlerOn.Cancel.Dir
+//@   ensures [C13 defaults_keep_steps_runnable] old(dag_runnable(d)) ==> dag_runnable(d)
+//@   loop 0 invariant old(dag_runnable(d)) ==> dag_runnable(d)
+//@   loop 0 invariant d.Steps == old(d.Steps)
+
+//@ fn loadDAG(dag, opts) (d, err)
+//@   props C13 C19
+//@   safety
+//@   modifies heap(alloc), heap(map(string, any)), ghost eff.exec, ghost eff.env, ghost env.key, ghost env.val, ghost obs.exists_calls, ghost obs.exists, ghost obs.exists_path, ghost obs.stat_err, ghost obs.stat_path
+//@   ensures [C19 no_eval_no_effect] opts.noEval ==> (eff.exec == old(eff.exec) && eff.env == old(eff.env))
+//@   ensures [C13 error_or_dag] err == nil ==> d != nil
+
+//@ fn LoadWithoutEval(dag) (d, err)
+//@   props C13 C19
+//@   safety
+//@   modifies heap(alloc), heap(map(string, any)), ghost eff.exec, ghost eff.env, ghost env.key, ghost env.val, ghost obs.exists_calls, ghost obs.exists, ghost obs.exists_path, ghost obs.stat_err, ghost obs.stat_path
+//@   ensures [C19 viewing_has_no_side_effects] eff.exec == old(eff.exec) && eff.env == old(eff.env)
+//@   ensures err == nil ==> d != nil
+
+//@ fn LoadMetadata(dag) (d, err)
+//@   props C09 C13 C19
+//@   safety
+//@   modifies heap(alloc), heap(map(string, any)), ghost eff.exec, ghost eff.env, ghost env.key, ghost env.val, ghost obs.exists_calls, ghost obs.exists, ghost obs.exists_path, ghost obs.stat_err, ghost obs.stat_path
+//@   records obs.meta_calls = old(obs.meta_calls) + 1
+//@   records obs.meta_err = err
+//@   records obs.meta_dag = d
+//@   ensures [C19 listing_has_no_side_effects] eff.exec == old(eff.exec) && eff.env == old(eff.env)
+//@   ensures err == nil ==> d != nil
+
+// --- preconditions
+//@ fn (Condition).eval(c) (r, err)
+//@   props C13 C02 C04
+//@   safety
+//@   modifies heap(alloc), ghost eff.exec
+//@ fn evalCondition(c) (err)
+//@   props C13 C02 C04
+//@   safety
+//@   modifies heap(alloc), ghost eff.exec
+//@ fn EvalConditions(cond) (err)
+//@   props C13 C02 C04
+//@   safety
+//@   modifies heap(alloc), ghost eff.exec
+//@   records eff.condfail = old(eff.condfail) + ite(err != nil, 1, 0)
